@@ -778,6 +778,11 @@ pub fn oracle_c04(w: &World, so: &StepObs, out: &mut StepOut, cps: &CpRef, book:
 
 // --------------------------------------------------------------------------------------- C05
 pub fn ref_free_collateral(t: &TraderObs, v: &VammObs, imr: u128) -> Option<i128> {
+    ref_free_collateral_alts(t, v, imr).map(|a| a[0])
+}
+
+/// one value, or two when the spot and TWAP PnL tie in magnitude (see `ref_ratio_alts`)
+pub fn ref_free_collateral_alts(t: &TraderObs, v: &VammObs, imr: u128) -> Option<Vec<i128>> {
     let p = t.pos.as_ref()?;
     if t.out_spot < 0 || t.out_twap < 0 {
         return None;
@@ -785,20 +790,31 @@ pub fn ref_free_collateral(t: &TraderObs, v: &VammObs, imr: u128) -> Option<i128
     let owed = owed_of(p, v.cum);
     let margin_f = (p.margin.u128() as i128 - owed).max(0);
     let (ps, pt) = (pnl_of(p, t.out_spot), pnl_of(p, t.out_twap));
-    let (pnl, notional) = if p.size.is_zero() {
-        (0, 0)
+    let mut cands = vec![];
+    if p.size.is_zero() {
+        cands.push((0, 0));
     } else if ps.abs() > pt.abs() {
-        (pt, t.out_twap)
+        cands.push((pt, t.out_twap));
     } else {
-        (ps, t.out_spot)
-    };
-    let min_coll = if pnl > 0 { margin_f } else { margin_f + pnl };
-    let req = if size_of(p) >= 0 {
-        p.notional.u128() as i128 * imr as i128 / di()
-    } else {
-        notional * imr as i128 / di()
-    };
-    Some(min_coll - req)
+        cands.push((ps, t.out_spot));
+        if ps.abs() == pt.abs() && (ps != pt || t.out_spot != t.out_twap) {
+            cands.push((pt, t.out_twap));
+        }
+    }
+    Some(
+        cands
+            .into_iter()
+            .map(|(pnl, notional)| {
+                let min_coll = if pnl > 0 { margin_f } else { margin_f + pnl };
+                let req = if size_of(p) >= 0 {
+                    p.notional.u128() as i128 * imr as i128 / di()
+                } else {
+                    notional * imr as i128 / di()
+                };
+                min_coll - req
+            })
+            .collect(),
+    )
 }
 
 fn cfg_fp(w: &World) -> u64 {
@@ -827,9 +843,10 @@ pub fn oracle_c05(w: &World, so: &StepObs, out: &mut StepOut, pre_book: &RefBook
                 let post = &post_ref;
                 if let Some(p) = &post.pos {
                     if !p.size.is_zero() {
-                        if let Some(r) = ref_ratio(post, &so.post.vamms[*v], false) {
+                        if let Some(rs) = ref_ratio_alts(post, &so.post.vamms[*v], false) {
                             out.tag("c05:open-ok-with-position");
-                            if r < cfg.mmr as i128 {
+                            let r = rs[0];
+                            if rs.iter().all(|r| *r < cfg.mmr as i128) {
                                 out.viol(
                                     "C05:open-leaves-position-below-maintenance",
                                     format!("margin ratio {} < maintenance {} after {:?}", r, cfg.mmr, so.act),
@@ -837,7 +854,7 @@ pub fn oracle_c05(w: &World, so: &StepObs, out: &mut StepOut, pre_book: &RefBook
                             }
                             match w.margin_ratio(*v, t) {
                                 // the statements do not fix the query's last digit
-                                Ok(q) if (itoi(&q) - r).abs() <= 2 => {}
+                                Ok(q) if rs.iter().any(|r| (itoi(&q) - r).abs() <= 2) => {}
                                 other => out.viol(
                                     "C05:margin-ratio-query-disagrees-with-reference",
                                     format!("reference {} query {:?} after {:?}", r, other.map(|q| q.to_string()), so.act),
@@ -878,8 +895,9 @@ pub fn oracle_c05(w: &World, so: &StepObs, out: &mut StepOut, pre_book: &RefBook
                                 format!("margin {} -> {} for amount {} owed {} in {:?}", p0.margin, p1.margin, amt, owed, so.act),
                             );
                         }
-                        if let Some(fc) = ref_free_collateral(post, &so.post.vamms[*v], cfg.imr) {
-                            if fc < -1 {
+                        if let Some(fcs) = ref_free_collateral_alts(post, &so.post.vamms[*v], cfg.imr) {
+                            let fc = fcs[0];
+                            if fcs.iter().all(|fc| *fc < -1) {
                                 out.viol(
                                     "C05:withdraw-leaves-negative-free-collateral",
                                     format!("reference free collateral {} after {:?}", fc, so.act),
@@ -890,7 +908,7 @@ pub fn oracle_c05(w: &World, so: &StepObs, out: &mut StepOut, pre_book: &RefBook
                                     "C05:withdraw-leaves-negative-free-collateral",
                                     format!("FreeCollateral query answers {} after {:?}", q, so.act),
                                 ),
-                                Ok(q) if (itoi(&q) - fc).abs() <= 2 => {}
+                                Ok(q) if fcs.iter().any(|fc| (itoi(&q) - fc).abs() <= 2) => {}
                                 other => out.viol(
                                     "C05:free-collateral-query-disagrees-with-reference",
                                     format!("reference {} query {:?} after {:?}", fc, other.map(|q| q.to_string()), so.act),
@@ -960,10 +978,11 @@ pub fn c07_preconditions_but_fund(w: &World, so: &StepObs) -> bool {
             Some(p) if !p.size.is_zero() => p,
             _ => return false,
         };
-        let r = match ref_ratio(p0, vo, true) {
+        let rs = match ref_ratio_alts(p0, vo, true) {
             Some(r) => r,
             None => return false,
         };
+        let r = rs[0];
         let registered_open = vo.registered && vo.state.open;
         let fill_ok = p0.out_spot >= 0;
         let band_ok = match vo.band {
@@ -980,7 +999,8 @@ pub fn c07_preconditions_but_fund(w: &World, so: &StepObs) -> bool {
             };
             if size_of(pp) > 0 { fill >= *limit } else { fill <= *limit }
         };
-        r < cfg.mmr as i128 && registered_open && fill_ok && band_ok && fee_ok && limit_ok
+        // under-margined under every reading of the ratio rule (they differ only when spot and TWAP PnL tie in magnitude)
+        rs.iter().all(|r| *r < cfg.mmr as i128) && registered_open && fill_ok && band_ok && fee_ok && limit_ok
     } else {
         false
     }
@@ -998,10 +1018,11 @@ pub fn oracle_c06_c07(w: &World, so: &StepObs, out: &mut StepOut, do6: bool, do7
             Some(p) if !p.size.is_zero() => p,
             _ => return,
         };
-        let r = match ref_ratio(p0, vo, true) {
+        let rs = match ref_ratio_alts(p0, vo, true) {
             Some(r) => r,
             None => return,
         };
+        let r = rs[0];
         let cum = vo.cum;
         let owed = owed_of(pp, cum);
         // the 15-minute TWAP leg of the ratio, against a reference computed from the vAMM's raw reserve snapshots
@@ -1025,7 +1046,7 @@ pub fn oracle_c06_c07(w: &World, so: &StepObs, out: &mut StepOut, do6: bool, do7
         if so.outcome.ok && !do6 {
             // C07 only: nothing to assert on a liquidation that went through
         } else if so.outcome.ok {
-            if r > cfg.mmr as i128 {
+            if rs.iter().all(|r| *r > cfg.mmr as i128) {
                 out.viol(
                     "C06:liquidated-above-maintenance",
                     format!("reference ratio {} > maintenance {} yet {:?} succeeded", r, cfg.mmr, so.act),
